@@ -1480,7 +1480,7 @@ class composite_if(x12_node):
 
         if self.usage == 'R':
             good_flag = False
-            for sub_ele in comp_data:
+            for sub_ele in (comp_data if comp_data is not None else []):
                 if sub_ele is not None and len(sub_ele.get_value()) > 0:
                     good_flag = True
                     break
